@@ -127,6 +127,8 @@ impl Format {
                 | Token::MonthName
                 | Token::MonthNameShort
                 | Token::Day
+                | Token::Weekday
+                | Token::WeekdayShort
                 | Token::Hour
                 | Token::Minute
                 | Token::Second
@@ -136,8 +138,6 @@ impl Format {
                 Token::Timescale
                 | Token::DayOfYearInteger
                 | Token::DayOfYear
-                | Token::Weekday
-                | Token::WeekdayShort
                 | Token::WeekdayDecimal => {
                     // These tokens don't need the gregorian, but other tokens in the list of tokens might.
                     // Hence, we don't return anything here and continue the loop.
@@ -403,12 +403,14 @@ impl Format {
         };
 
         if let Some(weekday) = weekday {
-            // Check that the weekday is correct
-            if weekday != epoch.weekday() {
+            // Check that the weekday is that of the date in the time scale it was provided in.
+            let (y, m, d, _, _, _, _) = Epoch::compute_gregorian(epoch.duration, epoch.time_scale);
+            let expected = Epoch::from_gregorian_tai_at_midnight(y, m, d).weekday();
+            if weekday != expected {
                 return Err(HifitimeError::Parse {
                     source: ParsingError::WeekdayMismatch {
                         found: weekday,
-                        expected: epoch.weekday(),
+                        expected,
                     },
                     details: "weekday and day number do not match",
                 });
